@@ -419,7 +419,7 @@ pub fn c11(args: &Args) -> Report {
         let mut p = Pools::basic();
         p.authors = vec![author(0), author(1)];
         p.kinds = vec![1, 0, 3, 10002, 30023, 30023, 30024];
-        p.times = vec![60, 80, 100, 120, 140];
+        p.times = if i % 5 == 4 { vec![60, 80, (1 << 32) + 100, (1 << 32) + 120, (1 << 40) + 1] } else { vec![60, 80, 100, 120, 140] };
         p.dvals = vec!["".into(), "x".into(), "x\u{0}".into(), long_d(181, "a"), long_d(182, "a"), long_d(183, "ab"), long_d(400, "z")];
         p.content_lens = vec![0, 4];
         p.max_extra_tags = 1;
@@ -587,7 +587,7 @@ pub fn c16(args: &Args) -> Report {
         let mut rng = hist_rng(args.seed(), 0xC16, i);
         let mut p = Pools::basic();
         p.kinds = vec![1, 7, 0, 10002, 30023, 30024, 20001, 1059];
-        p.times = vec![100, 101, 102, 103, 200];
+        p.times = if i % 3 == 2 { vec![100, 101, (1 << 32) + 7, (1 << 33) + 1, u64::MAX - 1] } else { vec![100, 101, 102, 103, 200] };
         p.dvals = vec!["".into(), "x".into(), "x\u{0}".into(), long_d(181, "a"), long_d(182, "b"), long_d(183, "cd"), long_d(200, "e"), long_d(400, "f"), "\u{1}\u{2}\u{ff}".into()];
         p.content_lens = vec![0, 5, 300];
         let mut mix = Mix::base();
